@@ -15,7 +15,7 @@ def sizes_args(ctx):
 def run(ctx):
     with vlib.Lock():
         ok_go = ctx.phase(ctx.build_go)
-        ok_gen = ok_go and ctx.phase(ctx.regen, ["consts", "super"])
+        ok_gen = ok_go and ctx.phase(ctx.regen, (lambda base: base + [p for p in vlib.gen_parts_of(MODULE) if p not in base])(["consts", "super"]))
         if ok_gen:
             if ctx.phase(ctx.prove, MODULE) and ctx.phase(ctx.audit, MODULE) and ctx.tier == "thorough":
                 ctx.phase(ctx.leanchecker, MODULE)
